@@ -21,7 +21,11 @@ def deref_value(a):
         return a[1]
     if a[0] == 'param':
         return ('mem', ('p', a[1]))
-    return None
+    if a[0] == 'ref':
+        return None
+    # a bare value where a shared reference is expected: the expression was normalised
+    # (reference wrappers stripped); the value itself is the pointee
+    return a
 
 
 class Inliner:
